@@ -1,5 +1,10 @@
 import DoraModel.Match.LemmasExpand
 import DoraModel.Match.LemmasSurface
+import DoraModel.Match.LemmasConv
+import DoraModel.Match.LemmasAccept
+import DoraModel.Match.LemmasNoPanic
+import DoraModel.Match.LemmasTerm
+import DoraModel.Match.Examples
 /-!
 # C11 — Match exhaustiveness and reachability are decided exactly
 
@@ -9,24 +14,30 @@ Property theorems only. Model: `DoraModel/Match/Model.lean` (transcription of
 
 The transcribed recursion is not structural, so the model functions carry a fuel argument and return
 `Except`: `.ok r` = the Rust function returns `r`; `.error .fuel` = fuel exhausted; `.error (.panic _)` = an
-`assert!`/`unreachable!` fired. Every theorem below is about runs that return. NOT proved: that enough fuel
-always exists (termination of the Rust recursion) and that well-typed inputs never panic; the correspondence
-run reports `!fuel` / `!panic` lines if that ever happens.
+`assert!`/`unreachable!` fired.
+
+* `useful_iff`, `exhaustive_iff`, `witness_sound`, `arm_unreachable_iff` speak about runs that return.
+* That `check_useful` and `check_exhaustive` DO return on every well-typed input is proved too:
+  `useful_terminates` / `exhaustive_terminates` (a computable amount of fuel always suffices, no typing needed),
+  `useful_no_panic` / `exhaustive_no_panic` (no `assert!`/`unreachable!` is reached on well-typed input), and the
+  combinations `useful_decided` / `exhaustive_decided` ("for every well-typed matrix the algorithm returns, and
+  what it returns is the semantic answer").
+* `convert_pattern_correct`: `convert_pattern` never panics on a pattern the type checker accepts (`spatWT`, a
+  decidable predicate; the driver evaluates it on every request and answers `!illtyped` if it fails, so a match
+  the real type checker accepts but `spatWT` rejects shows up as a disagreement) and preserves the set of matched
+  values, for `..` in any position and named fields in any order. With it `accepted_no_fallthrough` needs no
+  hypothesis about the conversion any more.
+* `match_accepted_iff`: sentence 1 for a whole `match` as written (surface arms through the conversion): accepted
+  iff the unguarded arms cover every value of the scrutinee's type.
+* NOT proved: termination of `check_useful_expand_inner` (only its calls of `check_useful` are covered), and that
+  its `assert!(spans.insert(span))` cannot fire (`arm_check_no_other_panic_partial` excludes every other assert);
+  which sub-pattern spans a `Useless::Set` lists. The correspondence run reports `!fuel` / `!panic` lines if one
+  of these ever happens.
 -/
 namespace Dora.Match.C11
 open Dora.Match
 
-/-! ### examples used for non-vacuity -/
-
-/-- rows `E::A(true | false, _)` (guarded) and `E::A(_, true)`; row under test `E::A(false, false) | E::B`:
-    an alternative, nested constructors and a guard -/
-def exMatrix : List (List Pat) :=
-  [[.ctor [0] (.enum 0 0) [.alt [0, 0] [.lit [0, 0, 0] (.bool true), .lit [0, 0, 1] (.bool false)], .any (some [0, 1])], .guard],
-   [.ctor [1] (.enum 0 0) [.any (some [1, 0]), .lit [1, 1] (.bool true)], anyNoSpan]]
-def exRow : List Pat :=
-  [.alt [2] [.ctor [2, 0] (.enum 0 0) [.lit [2, 0, 0] (.bool false), .lit [2, 0, 1] (.bool false)],
-             .ctor [2, 1] (.enum 0 1) []], anyNoSpan]
-def exTys : List Ty := [.adt 0, .guardT]
+/-! ### examples used for non-vacuity: `exMatrix`, `exRow`, `exTys`, `exEnv` are defined in `Match/Examples.lean` -/
 
 /-! ### sentence 1/2: usefulness is decided exactly -/
 
@@ -153,20 +164,39 @@ def badArms : List Arm := [
 example : accepted exEnv 40 badArms = false := by decide
 example : firstMatch badArms (fun _ => true) (.ctor 0 [.ctor 1 [], .ctor 0 []]) = none := by decide
 
-/-- What survives of `accepted_no_fallthrough`: IF the converted matrix patterns mean what the surface patterns
-    mean at run time (`hconv`; this is what fails for a positional `..` that is not last, and what the
-    correspondence run checks by brute force on every generated match) and are well-typed, then an accepted match
-    selects some arm for every value of the scrutinee's type, whatever the guards evaluate to.
-    GAP (why `_partial`): `hconv` is a hypothesis; it is not derived from a syntactic condition "`..` is last or
-    absent" on the surface patterns (that needs the correctness of `convert_subpatterns` for those patterns). -/
-theorem accepted_no_fallthrough_partial {env : Env} (hinh : Inh env) (fuel : Nat) (arms : List Arm) (t : Ty)
-    (hwt : ∀ j a cp, arms[j]? = some a → convertPattern env [j] a.pat = .ok cp → patWT env cp t = true)
-    (hconv : ∀ j a cp, arms[j]? = some a → convertPattern env [j] a.pat = .ok cp →
-      ∀ v, hasType env v t = true → matchPat false cp v = smatch a.pat v)
-    (hacc : accepted env fuel arms = true) :
-    ∀ v guards, hasType env v t = true → firstMatch arms guards v ≠ none := by
-  intro v guards hv
-  exact firstMatchFrom_ne_none guards v arms 0 (accepted_covers hinh fuel arms t hwt hconv hacc v hv)
+/-! ### the conversion from surface patterns (where the `..` defect was) -/
+
+/-- `convert_pattern` is meaning preserving: on every surface pattern the type checker accepts at type `t`
+    (`spatWT`: literals of the right type, at most one `..` per tuple / constructor pattern in ANY position with
+    the field indices the type checker records, named fields in any order without repetition, `..` last among
+    named fields) the conversion does not panic, its result is a well-typed matrix pattern, and — for either
+    reading of a `Guard` entry — it matches exactly the values of type `t` that the surface pattern selects at
+    run time (`smatch`: sub-patterns after a `..` meet the LAST fields). -/
+theorem convert_pattern_correct (env : Env) (p : SPat) (t : Ty) (sp : Span) (h : spatWT env p t = true) :
+    ∃ cp, convertPattern env sp p = .ok cp ∧ patWT env cp t = true ∧
+      ∀ (g : Bool) (v : Val), hasType env v t = true → matchPat g cp v = smatch p v :=
+  convert_total env p t sp h
+
+/-- `E::A(false, .., true)` and the named form `E::A(y = false, ..)` (field 1 named first): accepted by the type
+    checker's rules; the first converts to `E::A(false, true)` — the sub-pattern after `..` lands on the LAST field -/
+example : spatWT exEnv (.ctor (.variant 0 0) [none, none, none] [.litBool false, .rest, .litBool true]) (.adt 0) = true := by
+  decide
+example : spatWT exEnv (.ctor (.variant 0 0) [some 1, none] [.litBool false, .rest]) (.adt 0) = true := by decide
+example : ∃ cp, convertPattern exEnv [0] (.ctor (.variant 0 0) [none, none] [.rest, .litBool true]) = .ok cp ∧
+    matchPat false cp (.ctor 0 [.ctor 0 [], .ctor 1 []]) = true ∧ matchPat false cp (.ctor 0 [.ctor 1 [], .ctor 0 []]) = false := by
+  obtain ⟨cp, hc, _, hm⟩ := convert_pattern_correct exEnv (.ctor (.variant 0 0) [none, none] [.rest, .litBool true]) (.adt 0) [0]
+    (by decide)
+  exact ⟨cp, hc, by rw [hm false _ (by decide)]; decide, by rw [hm false _ (by decide)]; decide⟩
+
+/-- "Consequently an accepted match never falls through at run time": if every arm's pattern is one the type
+    checker accepts at the scrutinee's type `t` (`spatWT`, decidable; checked per request by the driver) and
+    `check_match` returns without a missing pattern, then for every value of type `t` and every outcome of the
+    guards `firstMatch` selects an arm. No hypothesis about the conversion is left: it is discharged by
+    `convert_pattern_correct`, for `..` in any position. -/
+theorem accepted_no_fallthrough {env : Env} (hinh : Inh env) (fuel : Nat) (arms : List Arm) (t : Ty)
+    (hwf : ∀ a ∈ arms, spatWT env a.pat t = true) (hacc : accepted env fuel arms = true) :
+    ∀ v guards, hasType env v t = true → firstMatch arms guards v ≠ none :=
+  accepted_no_fallthrough_full hinh fuel arms t hwf hacc
 
 /-- `match e { E::A(true, ..) if g => 0, E::A(_, _) => 1, E::B => 2 }`: accepted, `..` last, a guard -/
 def goodArms : List Arm := [
@@ -174,7 +204,49 @@ def goodArms : List Arm := [
   ⟨false, .ctor (.variant 0 0) [none, none] [.underscore, .var]⟩,
   ⟨false, .identVariant 0 1⟩]
 example : accepted exEnv 40 goodArms = true := by decide
+example : ∀ a ∈ goodArms, spatWT exEnv a.pat (.adt 0) = true := by decide
 example : firstMatch goodArms (fun _ => false) (.ctor 0 [.ctor 1 [], .ctor 0 []]) = some 1 := by decide
+/-- the theorem applied: `E::A(true, false)` with the guard false is taken by some arm -/
+example : firstMatch goodArms (fun _ => false) (.ctor 0 [.ctor 1 [], .ctor 0 []]) ≠ none :=
+  accepted_no_fallthrough exEnv_inh 40 goodArms (.adt 0) (by decide) (by decide) _ _ (by decide)
+
+/-- `match e { E::A(.., true) => 0, E::A(false, ..) => 1, E::A(true, false) => 2, E::B => 3 }`: `..` FIRST in an
+    arm, accepted, and the theorem applies (this shape was outside the former `_partial` statement) -/
+def restFirstArms : List Arm := badArms.take 2 ++ [⟨false, .ctor (.variant 0 0) [none, none] [.litBool true, .litBool false]⟩,
+  ⟨false, .identVariant 0 1⟩]
+example : firstMatch restFirstArms (fun _ => true) (.ctor 0 [.ctor 1 [], .ctor 0 []]) ≠ none :=
+  accepted_no_fallthrough exEnv_inh 60 restFirstArms (.adt 0) (by decide) (by decide) _ _ (by decide)
+
+/-- Sentence 1 for a whole `match` as written (surface arms, conversion included): whenever `check_match` returns,
+    it reports no missing pattern — the match is accepted — exactly when every value of the scrutinee's type is
+    matched by the pattern of some UNGUARDED arm (`smatch`, the run-time meaning). Hypothesis: every arm's pattern
+    is one the type checker accepts (`spatWT`). -/
+theorem match_accepted_iff {env : Env} (hinh : Inh env) (fuel : Nat) (arms : List Arm) (t : Ty)
+    (hwf : ∀ a ∈ arms, spatWT env a.pat t = true) (r : MatchResult) (h : checkMatch env fuel arms = .ok r) :
+    r.missing = [] ↔ ∀ v, hasType env v t = true → ∃ a ∈ arms, smatch a.pat v = true ∧ a.guarded = false := by
+  constructor
+  · intro hm v hv
+    have hacc : accepted env fuel arms = true := by simp [accepted, h, hm]
+    exact accepted_covers hinh fuel arms t
+      (fun j a cp ha hc => (convert_correct env a.pat t [j] cp (hwf a (List.mem_of_getElem? ha)) hc).1)
+      (fun j a cp ha hc w hw => (convert_correct env a.pat t [j] cp (hwf a (List.mem_of_getElem? ha)) hc).2 false w hw)
+      hacc v hv
+  · exact covers_accepted hinh fuel arms t hwf r h
+
+/-- `check_match` returns on `badArms` and reports one missing pattern; by the theorem some value is uncovered —
+    and indeed `E::A(true, false)` is matched by no arm -/
+example : (checkMatch exEnv 40 badArms).toOption.map (·.missing.length) = some 1 := by rfl
+example (r : MatchResult) (h : checkMatch exEnv 40 badArms = .ok r) : r.missing ≠ [] := by
+  intro hm
+  have := (match_accepted_iff exEnv_inh 40 badArms (.adt 0) (by decide) r h).mp hm
+    (.ctor 0 [.ctor 1 [], .ctor 0 []]) (by decide)
+  revert this
+  decide
+/-- and on `goodArms` (a guarded arm that does not count, `..` last): nothing missing, every value covered -/
+example (r : MatchResult) (h : checkMatch exEnv 40 goodArms = .ok r) : r.missing = [] := by
+  have hacc : accepted exEnv 40 goodArms = true := by decide
+  simp only [accepted, h, List.isEmpty_iff] at hacc
+  exact hacc
 
 /-! ### "…and selects the first arm whose pattern and guard hold" (the specification the lowering is compared with) -/
 
@@ -197,5 +269,133 @@ theorem firstMatch_least (arms : List Arm) (guards : Nat → Bool) (v : Val) (i 
 /-- second arm guarded and its guard false: the third arm is taken -/
 example : firstMatch [⟨false, .litBool true⟩, ⟨true, .underscore⟩, ⟨false, .var⟩] (fun _ => false) (.ctor 0 []) = some 2 := by
   decide
+
+/-! ### the algorithm returns: termination and panic freedom, and the unconditional statements -/
+
+/-- "enough fuel always exists" for `check_useful`: above the computable bound `usefulBound m q` (the weight of
+    the row under test against the matrix's maximal weighted pattern depth) the model never answers "out of
+    fuel" — the Rust recursion terminates on EVERY input, typed or not. -/
+theorem useful_terminates (env : Env) (m : List (List Pat)) (q : List Pat) (fuel : Nat)
+    (h : usefulBound m q < fuel) : checkUseful env fuel m q ≠ .error .fuel :=
+  checkUseful_fuel_suffices env m q fuel h
+
+/-- the bound for the example is 21; with 22 units of fuel `check_useful` returns, with 5 it does not (the bound is
+    not tight: 6 suffice here) -/
+example : usefulBound exMatrix exRow = 21 := by decide
+example : checkUseful exEnv 22 exMatrix exRow ≠ .error .fuel := useful_terminates exEnv exMatrix exRow 22 (by decide)
+example : checkUseful exEnv 5 exMatrix exRow = .error .fuel := by rfl
+
+/-- "enough fuel always exists" for `check_exhaustive`: above `exhaustiveBound m n = n * 2 ^ depthM m` the model
+    never answers "out of fuel", on every input. -/
+theorem exhaustive_terminates (env : Env) (m : List (List Pat)) (n : Nat) (fuel : Nat)
+    (h : exhaustiveBound m n < fuel) : checkExhaustive env fuel m n ≠ .error .fuel :=
+  checkExhaustive_fuel_suffices env m n fuel h
+
+example : exhaustiveBound exMatrix 2 = 32 := by decide
+example : checkExhaustive exEnv 33 exMatrix 2 ≠ .error .fuel := exhaustive_terminates exEnv exMatrix 2 33 (by decide)
+example : checkExhaustive exEnv 1 exMatrix 2 = .error .fuel := by rfl
+
+/-- `check_useful` reaches none of its `assert!` / `unreachable!` / `expect` sites on well-typed input: matrix and
+    row well-typed for the column types, no declared field of the guard pseudo-type, and a `Guard` entry of the
+    row under test only in the last column (`guardOK`; `check_match` only builds such rows,
+    `guardOK_of_guardLast`). Whatever the fuel. -/
+theorem useful_no_panic {env : Env} (hnog : NoGuardFields env) (fuel : Nat) (m : List (List Pat)) (q : List Pat)
+    (tys : List Ty) (site : String) (hm : matrixWT env m tys) (hq : patsWT env q tys = true) (hg : guardOK q tys) :
+    checkUseful env fuel m q ≠ .error (.panic site) :=
+  checkUseful_no_panic hnog fuel m q tys site hm hq hg
+
+example (site : String) : checkUseful exEnv 20 exMatrix exRow ≠ .error (.panic site) :=
+  useful_no_panic exEnv_noGuardFields 20 exMatrix exRow exTys site exMatrix_wt (by decide)
+    (guardOK_of_guardLast exRow exTys exTys_guardLast)
+/-- the hypothesis matters: a literal pattern in a constructor column (ill-typed) does reach an `unreachable!` -/
+example : checkUseful exEnv 20 [[.ctor [0] (.enum 0 1) []]] [.lit [1] (.int 3)] =
+    .error (.panic "exhaustiveness.rs:984 unreachable") := by rfl
+
+/-- `check_exhaustive` reaches none of its `assert!` / `expect` sites on a well-typed matrix, whatever the fuel -/
+theorem exhaustive_no_panic {env : Env} (fuel : Nat) (m : List (List Pat)) (n : Nat) (tys : List Ty)
+    (site : String) (hm : matrixWT env m tys) (hn : tys.length = n) :
+    checkExhaustive env fuel m n ≠ .error (.panic site) :=
+  checkExhaustive_no_panic fuel m n tys site hm hn
+
+example (site : String) : checkExhaustive exEnv 70 exMatrix 2 ≠ .error (.panic site) :=
+  exhaustive_no_panic 70 exMatrix 2 exTys site exMatrix_wt rfl
+/-- rows of different lengths (ill-typed) do reach the `assert!` at the top of `check_exhaustive` -/
+example : checkExhaustive exEnv 70 [[anyNoSpan], []] 1 = .error (.panic "exhaustiveness.rs:374 assert") := by rfl
+
+/-- Usefulness is DECIDED, unconditionally: for every well-typed matrix and row (every type inhabited, no field of
+    the guard pseudo-type, `Guard` only in the last column) and every amount of fuel above the computable bound,
+    `check_useful` returns a Boolean — it neither runs out of fuel nor panics — and that Boolean is `true` exactly
+    when some well-typed value vector is matched by the row and by no row of the matrix (guarded rows matching
+    nothing). -/
+theorem useful_decided {env : Env} (hinh : Inh env) (hnog : NoGuardFields env) (m : List (List Pat)) (q : List Pat)
+    (tys : List Ty) (hm : matrixWT env m tys) (hq : patsWT env q tys = true) (hg : guardOK q tys)
+    (fuel : Nat) (hfuel : usefulBound m q < fuel) :
+    ∃ b, checkUseful env fuel m q = .ok b ∧
+      (b = true ↔ ∃ vs, hasTypes env vs tys = true ∧ matchRow true q vs = true ∧
+        ∀ r ∈ m, matchRow false r vs = false) := by
+  cases h : checkUseful env fuel m q with
+  | ok b => exact ⟨b, rfl, useful_iff hinh fuel m q tys b hm hq h⟩
+  | error e =>
+    cases e with
+    | fuel => exact absurd h (useful_terminates env m q fuel hfuel)
+    | panic site => exact absurd h (useful_no_panic hnog fuel m q tys site hm hq hg)
+
+/-- on the example: with fuel 22 the answer exists (it is `true`, see the example after `useful_iff`) -/
+example : ∃ b, checkUseful exEnv 22 exMatrix exRow = .ok b ∧
+    (b = true ↔ ∃ vs, hasTypes exEnv vs exTys = true ∧ matchRow true exRow vs = true ∧
+      ∀ r ∈ exMatrix, matchRow false r vs = false) :=
+  useful_decided exEnv_inh exEnv_noGuardFields exMatrix exRow exTys exMatrix_wt (by decide)
+    (guardOK_of_guardLast exRow exTys exTys_guardLast) 22 (by decide)
+
+/-- Exhaustiveness is DECIDED, unconditionally: for every well-typed matrix (every type inhabited) and every amount
+    of fuel above the computable bound, `check_exhaustive` returns a list of rows — it neither runs out of fuel
+    nor panics —, the list is empty exactly when every well-typed value vector is matched by some row (guarded
+    rows matching nothing), every returned row has one entry per column, and every returned row is a genuine
+    witness (it matches, read with `matchWits`, a value vector that no row of the matrix matches). -/
+theorem exhaustive_decided {env : Env} (hinh : Inh env) (m : List (List Pat)) (n : Nat) (tys : List Ty)
+    (hm : matrixWT env m tys) (hn : tys.length = n) (fuel : Nat) (hfuel : exhaustiveBound m n < fuel) :
+    ∃ res, checkExhaustive env fuel m n = .ok res ∧
+      (res = [] ↔ ∀ vs, hasTypes env vs tys = true → ∃ r ∈ m, matchRow false r vs = true) ∧
+      (∀ w ∈ res, w.length = n) ∧
+      (∀ w ∈ res, ∃ vs, hasTypes env vs tys = true ∧ matchWits w vs = true ∧
+        ∀ r ∈ m, matchRow false r vs = false) := by
+  cases h : checkExhaustive env fuel m n with
+  | ok res =>
+    exact ⟨res, rfl, exhaustive_iff hinh fuel m n tys res hm hn h,
+      checkExhaustive_length fuel m n tys res hm hn h, witness_sound hinh fuel m n tys res hm hn h⟩
+  | error e =>
+    cases e with
+    | fuel => exact absurd h (exhaustive_terminates env m n fuel hfuel)
+    | panic site => exact absurd h (exhaustive_no_panic fuel m n tys site hm hn)
+
+/-- on the example: with fuel 33 the answer exists; the matrix is not exhaustive, so a witness is returned -/
+example : ∃ res, checkExhaustive exEnv 33 exMatrix 2 = .ok res ∧ res ≠ [] := by
+  obtain ⟨res, hres, _, _, _⟩ := exhaustive_decided exEnv_inh exMatrix 2 exTys exMatrix_wt rfl 33 (by decide)
+  refine ⟨res, hres, ?_⟩
+  have : (checkExhaustive exEnv 33 exMatrix 2).toOption.map (·.length) = some 1 := by rfl
+  rw [hres] at this
+  intro hnil
+  subst hnil
+  simp [Except.toOption] at this
+
+/-- What is proved about panics of the arm-reachability pass `check_useful_expand` (the row of an arm as
+    `check_match` builds it: every `|`-alternative carries a span, `Guard` only as last entry): on well-typed
+    input the ONLY assert it can reach is `assert!(spans.insert(span))` of `Useless::union_all`
+    ("exhaustiveness.rs:677"); all other `assert!` / `unreachable!` / `expect` / index sites are excluded.
+    FULL STATEMENT (not proved): `checkUsefulExpand env fuel m row` is `.ok _` for every well-typed input and
+    enough fuel. MISSING: (1) that the same span is never inserted twice (typing does not exclude it; it needs an
+    argument that the spans of distinct sub-patterns are distinct paths), (2) a fuel bound for
+    `check_useful_expand_inner` (the alternatives loop re-enters with rows built from `r`). The correspondence
+    run reports `!panic` / `!fuel` if either ever happens. -/
+theorem arm_check_no_other_panic_partial {env : Env} (hnog : NoGuardFields env) (fuel : Nat) (m : List (List Pat))
+    (row : List Pat) (tys : List Ty) (site : String) (hm : matrixWT env m tys) (hrow : patsWT env row tys = true)
+    (hsp : ∀ x ∈ row, spanned x = true) (hg : guardX row)
+    (h : checkUsefulExpand env fuel m row = .error (.panic site)) :
+    site = "exhaustiveness.rs:677 assert (span reported twice)" :=
+  checkUsefulExpand_onlyDup hnog fuel m row tys hm hrow hsp hg site h
+
+example : checkUsefulExpand exEnv 30 exMatrix exRow = .ok (.set []) := by rfl
+example : ∀ x ∈ exRow, spanned x = true := by decide
+example : guardX exRow := by simp [exRow, guardX, anyNoSpan, leaves, leavesL]
 
 end Dora.Match.C11
